@@ -8,8 +8,8 @@ TARGETS = ['MindsVerif.Props.C06']
 THEOREMS = ['MindsVerif.Props.C06.' + n for n in (
     'C06_partial', 'C06_partial_norm', 'C06_dml_partial', 'C06_join_kind', 'C06_join_spelling', 'C06_not_rewrite',
     'C06_order_key', 'C06_alias', 'C06_window_key', 'C06_grouping', 'C06_regroup_harmless',
-    'C06_regress_1', 'C06_regress_2', 'C06_regress_3', 'C06_regress_4', 'C06_regress_6', 'C06_witness_5',
-    'C06_witness_7', 'C06_witness_8', 'C06_witness_9',
+    'C06_regress_1', 'C06_regress_2', 'C06_regress_3', 'C06_regress_4', 'C06_regress_5', 'C06_regress_5b', 'C06_regress_6',
+    'C06_regress_9', 'C06_witness_7', 'C06_witness_8',
     'phi6_compatible', 'phi6_ids', 'phi6_flip', 'phi6_join_spellings', 'phi6_join_probe')]
 ASSUME = [
     'Render.saNorm / saStmt / SaParen.saParens are hand models of SqlalchemyRender + the SQLAlchemy compiler on the typed fragment; '
@@ -67,7 +67,8 @@ def render(R, ast):
 
 # ------------------------------------------------------------------------------------ expression trees
 CMP_KEYS = ('=', '!=', '<', '<=', '>', '>=', 'is', 'is not')
-AR_KEYS = ('+', '-', '*', '%')
+AR_KEYS = ('+', '-', '*', '%', '/')
+G_BIN = ('+', '-', '*', '/', '%', '=', '!=', '<', '>=', 'is', 'is not', '||', 'and', 'or')
 
 
 def gen_expr(rng, depth, boolean=True):
@@ -435,10 +436,62 @@ def sig_between_bounds(f, ast):
 
 
 def sig_concat(f, ast):
+    """`||` with an operand built with `*` (the only operand 75aca2f leaves bare)"""
     from mindsdb_sql.parser import ast as A
     return f['kind'] in ('rows-differ', 'tables-differ', 'value-differs') and \
         any(isinstance(n, A.BinaryOperation) and n.op == '||' and
-            any(isinstance(a, A.BinaryOperation) and a.op in ('+', '-', '*', '/', '%') for a in n.args) for n in ast_nodes(ast))
+            any(isinstance(a, A.BinaryOperation) and a.op == '*' for a in n.args) for n in ast_nodes(ast))
+
+
+def gen_g(rng, depth):
+    """operator trees over every key of the method table that takes scalar operands (incl. `||` and `/`)"""
+    if depth <= 0 or rng.random() < 0.2:
+        return ('a', rng.randrange(3))
+    r = rng.random()
+    if r < 0.78:
+        return ('b', rng.choice(G_BIN), gen_g(rng, depth - 1), gen_g(rng, depth - 1))
+    if r < 0.9:
+        return ('p', rng.choice(('NOT', '-')), gen_g(rng, depth - 1))
+    return ('w', gen_g(rng, depth - 1), gen_g(rng, depth - 1), gen_g(rng, depth - 1))
+
+
+def concat_chain(t):
+    if t[0] == 'a':
+        return False
+    if t[0] == 'b' and t[1] == '||' and any(x[0] == 'b' and x[1] == '||' for x in t[2:]):
+        return True
+    return any(concat_chain(x) for x in t[1:] if isinstance(x, tuple))
+
+
+def g_line(t):
+    if t[0] == 'a':
+        return 'a %d' % t[1]
+    if t[0] == 'b':
+        return 'b %s %s %s' % (t[1].replace(' ', '_'), g_line(t[2]), g_line(t[3]))
+    if t[0] == 'p':
+        return 'p %s %s' % (t[1], g_line(t[2]))
+    return 'w ' + ' '.join(g_line(x) for x in t[1:])
+
+
+def g_ast(t):
+    from mindsdb_sql.parser import ast as A
+    if t[0] == 'a':
+        return A.Identifier(parts=['c%d' % t[1]])
+    if t[0] == 'b':
+        return A.BinaryOperation(op=t[1], args=[g_ast(t[2]), g_ast(t[3])])
+    if t[0] == 'p':
+        return A.UnaryOperation(op=t[1].lower() if t[1] == 'NOT' else '-', args=[g_ast(t[2])])
+    return A.BetweenOperation(args=[g_ast(x) for x in t[1:]])
+
+
+def g_sql(t):
+    if t[0] == 'a':
+        return 'c%d' % t[1]
+    if t[0] == 'b':
+        return '(%s %s %s)' % (g_sql(t[2]), t[1].upper(), g_sql(t[3]))
+    if t[0] == 'p':
+        return '(%s %s)' % (t[1], g_sql(t[2]))
+    return '(%s BETWEEN %s AND %s)' % tuple(g_sql(x) for x in t[1:])
 
 
 def sig_window_nulls(f, ast):
@@ -628,6 +681,11 @@ def run(chk):
     lines += ['W %s %s' % (d.replace(' ', '_'), n.replace(' ', '_')) for d, n in wl]
     tl = [('int 5', None), ('int 0', 'k'), ('null', None), ('null', 'n'), ('btw', 'k0'), ('btw', None), ('col', 'k1'), ('col', None)]
     lines += ['T %s %s' % (k, a or '-') for k, a in tl]
+    grng = common.rng_for(chk.seed, 'C06/gtrees')
+    gl = [('b', o, ('a', 0), ('b', i, ('a', 1), ('a', 2))) for o in G_BIN for i in G_BIN] + \
+         [('b', o, ('b', i, ('a', 0), ('a', 1)), ('a', 2)) for o in G_BIN for i in G_BIN] + \
+         [gen_g(grng, grng.randint(2, 4)) for _ in range(6000 if deep else 800)]
+    lines += ['G ' + g_line(t) for t in gl]
     outs = None
     try:
         outs = common.lean_run('Render', lines)
@@ -678,8 +736,6 @@ def run(chk):
                         if all(value_of(conn, osql, e2) == value_of(conn, fixed, e2) or value_of(conn, osql, e2)[0] != 'ok'
                                for e2 in ENVS):
                             causes.append('asboolean-grouping')
-                    if fl['saok'] == '0' and sig_between_bounds(dict(kind='value-differs'), expr_ast(t)):
-                        causes.append('between-bounds')
                     kfs = {k['signature']: k for k in chk.kf if k.get('status') == 'open' and 'signature' in k}
                     f['causes'] = causes
                     f['class'] = 'kf:' + '+'.join(causes) if causes else 'unexplained:value-differs'
@@ -745,6 +801,49 @@ def run(chk):
                 div += 1
                 first = first or dict(target=k, alias=a, model=o.strip(), impl=got, rendered=r)
         chk.corr_result('render-label', len(tl), div, first)
+        base += len(tl)
+        # operator trees over all keys (incl. `||`, `/`): printed text vs model, and values vs the fully parenthesised original
+        div, first = 0, None
+        gd = collections.Counter()
+        kfs = {k['signature']: k for k in chk.kf if k.get('status') == 'open' and 'signature' in k}
+        for t, o in zip(gl, outs[base:]):
+            parts = [x.strip() for x in o.rsplit(' | ', 1)]
+            r = render(R, A.Select(targets=[A.Star()], from_table=A.Identifier('t'), where=g_ast(t)))
+            got = r.split(' WHERE ', 1)[1] if isinstance(r, str) and ' WHERE ' in r else str(r)
+            chk.count(('G', t))
+            fl = dict(x.split('=') for x in parts[1].split())
+            # NOT over Boolean-typed operands / NOT of a comparison is flipped by SQLAlchemy: text is compared for NOT-free trees
+            # (`||` directly under `||`: SQLAlchemy flattens the chain or keeps the Grouping depending on its type
+            #  inference -- both texts mean the same, `||` is associative; only executed)
+            if 'NOT' not in g_line(t).split() and not concat_chain(t) and got != parts[0]:
+                div += 1
+                first = first or dict(tree=g_line(t), model=parts[0], impl=got)
+                continue
+            if not isinstance(r, str):
+                continue
+            bad = None
+            for env in ENVS:
+                a, b = value_of(conn, g_sql(t), env), value_of(conn, got, env)
+                if a[0] == 'ok' and a != b:
+                    bad = dict(env=env, orig=a, rend=b)
+                    break
+            good = fl['saok'] == '1' and fl['regroup'] == '1'
+            gd['agree' if not bad else ('differs-predicted' if not good else 'differs-UNPREDICTED')] += 1
+            if bad:
+                f = dict(desc='value of the rendered expression differs from the original: %s' % g_sql(t), dialect='sqlite',
+                         text='SELECT %s FROM (SELECT %s AS c0, %s AS c1, %s AS c2)' % ((g_sql(t),) + tuple(X_lit(v) for v in bad['env'])),
+                         rendered=got, kind='gexpr', tree=g_line(t), gtree=t, model_flags=parts[1], diff=dict(kind='value-differs', **bad))
+                causes = ['concat-precedence'] if sig_concat(dict(kind='value-differs'), g_ast(t)) and not good else []
+                f['causes'] = causes
+                f['class'] = 'kf:' + '+'.join(causes) if causes else 'unexplained:value-differs'
+                if causes and all(c in kfs for c in causes):
+                    f['kf'] = kfs[causes[0]]['id']
+                    for c in causes:
+                        kfs[c]['_reproduced'] = True
+                else:
+                    f['kf'] = None
+                chk.fail(f)
+        chk.corr_result('render-optree', len(gl), div, first, dict(gd))
 
     # ---------------------------------------------------------------- impl-level probe: execution
     prng = common.rng_for(chk.seed, 'C06/probe')
@@ -808,6 +907,16 @@ def replay(path):
     if not f:
         print(json.dumps(data, indent=1)[:3000])
         return 1
+    if f.get('kind') == 'gexpr':
+        conn = sqlite3.connect(':memory:')
+        t = to_tuple(f['gtree'])
+        q = __import__('mindsdb_sql.parser.ast', fromlist=['x'])
+        r = render(renderer('sqlite'), q.Select(targets=[q.Star()], from_table=q.Identifier('t'), where=g_ast(t)))
+        rsql = r.split(' WHERE ', 1)[1]
+        env = tuple(f['diff']['env'])
+        a, b = value_of(conn, g_sql(t), env), value_of(conn, rsql, env)
+        print('REPRODUCED' if a != b else 'not reproduced', g_sql(t), '=>', rsql, 'env', env, 'orig', a, 'rendered', b)
+        return 1 if a != b else 0
     if f.get('kind') == 'expr':
         conn = sqlite3.connect(':memory:')
         t = to_tuple(f['expr_tree'])
